@@ -718,6 +718,13 @@ impl Kernel {
             if ok { 0 } else { -EBADF }
         } else {
             let fd = sqe.fd();
+            if (0..FAKE_FD_BASE).contains(&fd) {
+                // A real descriptor of this process (e.g. an inotify instance used
+                // with a simulated ring): really close it.
+                let ok = unsafe { libc::close(fd) } == 0;
+                self.notes.push(Note::Close { ring, fd, direct: false, via, ok });
+                return if ok { 0 } else { -EBADF };
+            }
             let ok = self.open_fds.remove(&fd);
             self.notes.push(Note::Close { ring, fd, direct: false, via, ok });
             if ok { 0 } else { -EBADF }
